@@ -355,3 +355,29 @@ def check_norm_switch(chk, rule, f, obj, knob="normalize", must_enter=None, rese
         ok = bool(ones_) and g1.always_followed(g1.entry.id, ones_, strict=True)
         chk.verdict(rule, (f, ones_[0] if ones_ else f.node), f"{knob}=True: every path to return resets {me} to 1", True if ok else False,
                     f"{f.short}: with {knob}=True some path returns without resetting `{me}` to 1: the result is not normalised")
+
+
+# ------------------------------------------------------------- FF2 Heff siblings carry the operator's factor
+def check_heff_factor(chk, rule):
+    prog = chk.prog
+    ENV = "yastn.tn.mps._env"
+    e3 = prog.cls(ENV, "EnvParent_3")
+    fam = [c for c in prog.module(ENV).classes.values() if e3 in prog.class_mro(c)]
+    n = 0
+    for ci in fam:
+        for name in ("Heff0", "Heff1", "Heff2"):
+            f = ci.methods.get(name)
+            if f is None or f.cls is not ci:
+                continue
+            if any("abstractmethod" in d for d in f.decorators):
+                continue
+            rets = [r for r in A.returns_of(f.node) if r.value is not None]
+            if not rets:
+                continue
+            n += 1
+            ok = all(isinstance(r.value, ast.BinOp) and isinstance(r.value.op, ast.Mult) and
+                     "self.op.factor" in (A.text(r.value.left), A.text(r.value.right)) for r in rets)
+            chk.verdict(rule, (f, rets[0]), rets[0].value, True if ok else False,
+                        f"{ci.name}.{name}(): the effective Hamiltonian is not multiplied by self.op.factor although its siblings are: "
+                        f"local problems use a Hamiltonian of the wrong scale whenever the MPO's factor is not 1")
+    return n
